@@ -161,7 +161,7 @@ static void bind_step() {
       int64_t disp = int64_t(to_off - uint64_t(s.off) + uint64_t(s.rel));
       if (representable(s.kind, disp)) {
         V_ASSERT((w & ~field_mask_of(s.kind)) == s.w0, "bits outside the displacement field untouched");
-        V_ASSERT(decode_field(s.kind, w) == disp, "patched field decodes to bound offset - reference offset + addend");
+        V_ASSERT(decode_field(s.kind, w) == disp, "patched field decodes to bound offset - reference offset plus addend");
         V_ASSERT(!in_list(c->_fixups, &f), "resolved fixup is unlinked");
         resolved++;
       }
@@ -179,7 +179,7 @@ static void bind_step() {
   // pending list = this label's unresolved fixups in order, followed by the older list; terminated
   if (have_older) expect_seq[pending] = &older;
   Fixup* p = c->_fixups;
-  for (uint32_t q = 0; q < 4; q++) { V_ASSERT(p == expect_seq[q], "pending list is this label's unresolved fixups followed by the older ones"); if (p) p = p->next; }
+  for (uint32_t q = 0; q < 4; q++) { V_ASSERT(p == expect_seq[q], "pending list is the unresolved fixups of this label followed by the older ones"); if (p) p = p->next; }
   V_ASSERT(p == nullptr, "pending list is terminated");
   V_ASSERT(list_len(reinterpret_cast<Fixup*>(c->_fixup_data_pool._data)) == resolved + (have_pooled ? 1 : 0), "every resolved fixup went back to the pool exactly once");
   // bytes outside the patched words
@@ -241,7 +241,7 @@ static void resolve_step() {
     int64_t disp = int64_t((to_sec + lo) - (from_sec + s.off) + uint64_t(s.rel));
     if (!overflow && representable(s.kind, disp)) {
       V_ASSERT((w & ~field_mask_of(s.kind)) == s.w0, "resolve: bits outside the displacement field untouched");
-      V_ASSERT(decode_field(s.kind, w) == disp, "resolve: patched field decodes to (section + label) - (section + reference) + addend");
+      V_ASSERT(decode_field(s.kind, w) == disp, "resolve: patched field decodes to (section plus label) - (section plus reference) plus addend");
       V_ASSERT(!in_list(c->_fixups, &f), "resolve: resolved fixup is unlinked");
       resolved++;
     }
